@@ -26,7 +26,7 @@ inductive Admits : Elem → Node → Prop
 
 theorem matches_admits {e : Elem} {occs : List Node} (h : Matches e occs) : ∀ o ∈ occs, Admits e o := by
   induction h with
-  | intro e occs htext hattrs hattr_man hnd hnone hman hmulti hsub ih =>
+  | intro e occs htext hattrs hattr_man hnd hnone hman hmulti hlen hpos hsub ih =>
     intro o ho
     refine Admits.intro _ _ ?_ ?_ ?_ ?_ ?_ ?_ ?_
     · intro a ha
